@@ -52,6 +52,19 @@ pub struct DrawnBatch {
     pub dropped: Vec<(String, String)>,
 }
 
+/// The hand-written corpus (/verif/corpus/*.pdl) as model descriptions, sorted by file name.
+pub fn corpus_descs() -> Vec<(String, Result<Desc, String>, String)> {
+    let mut files: Vec<PathBuf> = std::fs::read_dir(format!("{VERIF}/corpus")).map(|r| r.filter_map(|e| e.ok()).map(|e| e.path()).filter(|p| p.extension().map(|x| x == "pdl").unwrap_or(false)).collect()).unwrap_or_default();
+    files.sort();
+    let mut out = vec![];
+    for f in files {
+        let name = f.file_name().unwrap().to_string_lossy().to_string();
+        let Ok(text) = std::fs::read_to_string(&f) else { continue };
+        out.push((name.clone(), crate::compile::desc_of_text(&name, &text), text));
+    }
+    out
+}
+
 /// Draw the batch of descriptions for (seed, tier): LE/BE twin pairs cycling through strata.
 pub fn draw_batch(seed: u64, tier: &str, extra: &[(String, Desc, String)]) -> DrawnBatch {
     let pairs = if tier == "thorough" { 160 } else { 24 };
